@@ -12,6 +12,8 @@ use std::{
 use serde_json::{json, Value};
 
 mod evalcmd;
+mod gccmd;
+mod interncmd;
 mod util;
 
 type Handler = fn(&Value) -> Value;
@@ -74,6 +76,8 @@ fn main() {
 	let sub = args.get(1).map(String::as_str).unwrap_or("");
 	match sub {
 		"eval" => run_lines(evalcmd::handle),
+		"intern" => run_lines(interncmd::handle),
+		"gc" => run_lines(gccmd::handle),
 		"version" => println!("jrharness 1"),
 		_ => {
 			eprintln!("usage: jrharness <eval|...>");
